@@ -62,6 +62,15 @@ def run_digest(prop, mode, base, idx):
     h.update(repr([(o.get('task'), o.get('idx'), o.get('rec'), o.get('faulted'), o.get('skipped'))
                    for o in res['obs']]).encode())
     h.update(repr(sorted(res.get('faults', {}).items())).encode())
+    if len(plan['tasks']) > 1:
+        # the second (conflict-directed) stage is part of what must be repeatable
+        from sim.driver import directed_specs
+        specs = directed_specs(res, seed)
+        h.update(repr([(sp['victim'], sp['at'], sp['drain']) for sp in specs]).encode())
+        if specs:
+            r2 = execute_isolated(prop, plan, specs[0], timeout=120, label='digest directed run')
+            h.update(repr((r2['sched']['digest'], r2['sched']['segments'], r2['sched']['directed_fired'],
+                           [(o.get('idx'), o.get('rec')) for o in r2['obs']])).encode())
     # logical digest + fingerprint of the allocator state the run started from / ended in
     return h.hexdigest() + ':' + hashlib.blake2b(repr(res.get('heap_canary')).encode(),
                                                  digest_size=4).hexdigest()
